@@ -3,9 +3,10 @@ Proof: Lean theorems about the executable repository model.  Tie: the model driv
 binary after every command of generated histories.  Oracle: model-independent, lib/repo_check.py."""
 import random
 import repo_check as rc
+import onlyver
 from repo_check import W, T, CI, RC
 
-ORACLES = [rc.o1_content_addressed, rc.o4_restore_versions]
+ORACLES = [rc.o1_content_addressed, rc.o4_restore_versions, onlyver.oracle]
 RESTORE = dict(old_commits=True)
 
 
@@ -88,9 +89,148 @@ def force_histories(seed, n):
     return out
 
 
+# ------------------------------------------------------------------------------------------------
+# `remove --only-version V`: every version that V does not name stays restorable
+
+def unnamed_versions_hook(res):
+    """After every commit (track / carry-in) the harness notes the Git commit xvc made, the path, the bytes committed and
+    the cache address recorded for them.  A `remove --only-version V` entitles xvc to delete the versions of its targets
+    whose digest starts with V (dashes and case ignored) and nothing else.  At the end of the history, in a throw-away
+    copy: for every noted version that no command named, `git checkout <its commit>`, delete the file,
+    `xvc file recheck <path>` must reproduce the committed bytes (C04, second sentence)."""
+    import os, shutil, subprocess
+    import repo_harness as rh
+    claims, legit = [], set()
+
+    def hook(sb, cfg, history, steps, table):
+        st = steps[-1]
+        c, pre, post = st['cmd'], st['pre'], st['post']
+        if c['op'] in ('track', 'carryin') and st['rc'] == 0:
+            g, out, _ = sb.git('rev-parse', 'HEAD')
+            for t in c['targets']:
+                r, b = post.recs.get(t), rc.read_through(pre, t)
+                if g == 0 and r and r['cur'] and b is not None and rc.rec_addr(r, t) in post.cache:
+                    claims.append((st['i'], out.strip(), t, b, rc.rec_addr(r, t)))
+        elif c['op'] == 'remove':
+            if c.get('only_version') and c.get('_only_table') is not None:
+                legit.update(onlyver.named_addrs(c, pre))
+            else:
+                legit.update(rc.rec_addr(pre.recs[t], t, d) for t in c['targets'] if t in pre.recs for d in pre.recs[t]['hist'])
+        elif c['op'] == 'untrack' or c.get('force'):
+            legit.update(st['pre'].cache)                    # not generated in this stream; nothing is claimed afterwards
+        if not (len(steps) == len(history) or st['rc'] not in (0, 1)):
+            return
+        todo = [x for x in claims if x[4] not in legit]
+        res['claims'] = len(claims); res['probed'] = len(todo)
+        removes = [rh.show_cmd(s['cmd']) for s in steps if s['cmd']['op'] == 'remove']
+        for head in sorted({x[1] for x in todo}, key=lambda hd: min(x[0] for x in todo if x[1] == hd)):
+            cp = sb.base + '.unnamed'
+            shutil.rmtree(cp, ignore_errors=True)
+            subprocess.run(['cp', '-a', sb.base, cp], check=False)
+            probe = rh.Sandbox.__new__(rh.Sandbox)
+            probe.__dict__.update(sb.__dict__)
+            probe.base, probe.root, probe.log = cp, os.path.join(cp, 'repo'), []
+            g, _, err = probe.git('checkout', '-q', '--detach', head)
+            for (i, hd, t, want, addr) in todo:
+                if hd != head: continue
+                if g != 0:
+                    res.setdefault('notes', []).append(f'git checkout {head[:8]} failed: {err[-160:]}'); continue
+                ap = probe.path(t)
+                if os.path.lexists(ap): os.unlink(ap)
+                x, _, xerr = probe.x(*(rh.Runner.cfg_args(None, cfg) + ['--skip-git', 'file', 'recheck', t]))
+                try:
+                    got = open(ap, 'rb').read()
+                except OSError:
+                    got = None
+                res['restores'] = res.get('restores', 0) + 1
+                if got != want:
+                    res.setdefault('failures', []).append((
+                        f"after {' ; '.join(removes)}: `git checkout <commit made by step {i}>; rm {t}; xvc file recheck {t}` gives "
+                        f"{'nothing' if got is None else repr(got[:40])} instead of the committed {want[:40]!r} (rc={x} {xerr.strip()[-160:]}); "
+                        f"this version (object {addr}) was never named for removal", {'kind': 'unnamed-version-not-restorable'}))
+            for dp, dn, fn in os.walk(cp):
+                try: os.chmod(dp, 0o755)
+                except OSError: pass
+            shutil.rmtree(cp, ignore_errors=True)
+    return hook
+
+
+def only_version_stream(chk, col, n):
+    """histories over the digest-prefix table (lib/onlyver.py): compared with the model after every command (the model
+    makes the selection on the string: `removepfx`), judged by the oracles, and probed for restorability of what was not named"""
+    import hashlib, json
+    from concurrent.futures import ThreadPoolExecutor
+    import repo_harness as rh
+    r = chk.repo_ctx['runner']
+    items = onlyver.table_histories(chk.seed, n)
+
+    def one(it):
+        name, cfg, h = it
+        res = {}
+        try:
+            return r.run_history(name, cfg, h, [unnamed_versions_hook(res)]), res
+        except Exception:
+            import traceback
+            return [{'i': -1, 'cmd': {'op': 'harness-error'}, 'rc': -1, 'err': traceback.format_exc()[-800:], 'abs': 'harness-error', 'pre': None, 'post': None, 'out': ''}], res
+    with ThreadPoolExecutor(max_workers=16) as ex:
+        done = list(ex.map(one, items))
+    import os
+    have_model = os.path.exists(chk.repo_ctx['model'])
+    mod = r.model_answers([(c, h) for _, c, h in items]) if have_model else [[None] * len(h) for _, _, h in items]
+    st = chk.tie['streams'].setdefault('only-version-histories', {'histories': 0, 'commands': 0, 'disagreements': 0, 'versions_committed': 0,
+                                                                  'unnamed_versions_restored_from_their_commit': 0})
+    for (name, cfg, h), (steps, res), m in zip(items, done, mod):
+        chk.evaluations += 1
+        st['histories'] += 1
+        case = {'cfg': cfg, 'history': [rh.model_line(c) for c in h] if steps and steps[0]['i'] >= 0 else [], 'readable': [rh.show_cmd(c) for c in h], 'stream': name}
+        if steps and steps[0]['cmd']['op'] == 'harness-error':
+            chk.disagreement('only-version-histories', case, steps[0]['err'], '', 'harness error'); continue
+        chk.nontrivial.add(hashlib.sha1(json.dumps(case['history']).encode()).hexdigest())
+        st['versions_committed'] += res.get('claims', 0)
+        st['unnamed_versions_restored_from_their_commit'] += res.get('restores', 0) - len(res.get('failures', []))
+        for s, ml in zip(steps, m):
+            st['commands'] += 1
+            d = rh.compare_step(s, ml) if ml is not None else None
+            if d:
+                st['disagreements'] += 1
+                chk.disagreement('only-version-histories', dict(case, readable=case['readable'][:s['i'] + 1], history=case['history'][:s['i'] + 1]), s['abs'], ml, d)
+                break
+        fails = list(res.get('failures', []))
+        for o in (rc.o1_content_addressed, rc.o5_removal):
+            fails += o(steps, cfg, h)
+        fails += onlyver.oracle(steps, cfg, h, collect=col)
+        seen = set()
+        for msg, sig in fails:
+            k = json.dumps(sig, sort_keys=True)
+            if k in seen: continue
+            seen.add(k)
+            chk.oracle_failure(msg, case, None, signature=sig)
+        for note in res.get('notes', []):
+            chk.notes.append(f'{name}: {note}')
+
+
+RULE_EXTRA = (' + C04 streams: {n} restore / {nf} force histories; 6 fixed + {no} generated histories over lib/digest_prefix_table.json (a path with versions A, B, C where the digest of A begins '
+              'with the identifier of a hash algorithm - b3, b2, a0, hex digits themselves - or another pair of digits, and the digest of B with the characters that follow; every '
+              'entry recomputed with lib/hashref.py on every run), then `remove --from-cache --only-version <prefix of one version>` typed with 0..12, 27, 28 or 64 digits, dashes at '
+              'the documented positions / first only / none, lower or upper case; the model makes the selection on the STRING (driver command `removepfx`, '
+              'XvcRepo/OnlyVersion.lean); oracle: nothing but a version the string names is deleted, an ambiguous string deletes nothing, and every version no command named is '
+              'restored from the Git commit that committed it (`git checkout; rm; xvc file recheck`); string-level tie: every `remove --only-version` command that ran in any '
+              'stream is sent to the driver as `onlyver <identifier> <string> <digests>` and the selection compared with what the binary deleted')
+
+
 def run(chk):
+    import functools
     n = 40 if chk.tier == 'quick' else 400
-    return rc.run_property(chk, 'C04', ORACLES, restore=RESTORE, nq=240, extra_corpus=restore_histories(chk.seed, n) + force_histories(chk.seed, n // 2))
+    no = 64 if chk.tier == 'quick' else 640
+    col = onlyver.Collector()
+    oracles = [rc.o1_content_addressed, rc.o4_restore_versions, functools.partial(onlyver.oracle, collect=col)]
+
+    def before_finish():
+        only_version_stream(chk, col, no)
+        col.tie(chk, chk.repo_ctx['model'])
+        chk.extra['rule'] = chk.extra.get('rule', '') + RULE_EXTRA.format(n=n, nf=n // 2, no=no)
+    return rc.run_property(chk, 'C04', oracles, restore=RESTORE, nq=240, extra_corpus=restore_histories(chk.seed, n) + force_histories(chk.seed, n // 2),
+                           before_finish=before_finish, extra_props=['XvcRepo.Props.C04Only'])
 
 
 def replay(chk, data):
